@@ -620,6 +620,8 @@ func (c *FnCtx) stdModel(fr *frame, st *State, site ssa.Instruction, name string
 		case Term:
 			cur = c.loadPtr(st, p, t32)
 		}
+		cur = c.named(cur, "at")
+		c.loadFacts(st, cur)
 		if strings.Contains(name, ".Load") {
 			return cur, true
 		}
